@@ -418,6 +418,18 @@ class _DQF:
                      "dq feed " + gen.hexs(data), "dq recv", "dq grow %d" % (mx + r.choice([64, 1000, mx])),
                      "dq recv", "dq recv", "dq feed " + gen.hexs(cframe(codec, 30, k)), "dq drain", "dq msg"]
             out.append(("dqbig:%s:%d" % (codec, k), lines))
+        # previews (mpt_queue_peek with a destination) of complete well-formed frames: what is handed out must be a
+        # prefix of the reference decoding, whatever the queue geometry
+        for codec in DECODERS + ["command"]:
+            for k, m in enumerate([[0x68, 0x69], [0x61], [0x41, 0x42, 0x43, 0x44, 0x45, 0x46], [0x31, 0x32, 0x33]]):
+                f = (m + [0]) if codec == "command" else ref_encode(codec, m)
+                g = ([0x7a, 0]) if codec == "command" else ref_encode(codec, [0x7a])
+                for mx, off in ((16, 0), (16, 13), (24, 20)):
+                    new = "dq new %s max=%d off=%d align=%d" % (codec, mx, off, (k * 3 + off) % 16)
+                    out.append(("dqpk:%s:%d:%d" % (codec, k, off), [new, "dq feed " + gen.hexs(f + g), "dq peek 1", "dq peek 4", "dq peek 100", "dq recv",
+                                                                     "dq peek 4", "dq recv", "dq peek 4", "dq msg", "dq recv", "dq peek 2"]))
+                    out.append(("dqpk2:%s:%d:%d" % (codec, k, off), [new, "dq feed " + gen.hexs(f[:1]), "dq peek 4", "dq recv", "dq feed " + gen.hexs(f[1:] + g), "dq peek 1", "dq peek 3", "dq peek 100", "dq peek 100 nodst",
+                                                                      "dq recv", "dq msg"]))
         # input queue without a decoder ("final data available" paths of mpt_queue_recv / mpt_queue_peek)
         for k in range((40 if tier == "quick" else 400) * scale):
             mx = r.choice([8, 16, 40])
